@@ -8,13 +8,15 @@ RULE = ("random multifurcating trees (3..12 tips, rooted/unrooted, parent slot a
         "sometimes), tip states over 1..4 states (plain and exotic state names to exercise sort.Strings, extra map entries "
         "for absent tips, rarely a missing tip), algorithms downpass/deltran/acctran (+none for the correspondence), every "
         "case also run on the same tree re-rooted at a random inner node (the judge checks the second tree with "
-        "Model.Reroot.reroot); sequence variant: alignments of 1..6 sites, unambiguous ACGT(-) with the character variant "
+        "Model.Reroot.reroot); sequence variant: alignments of 1..6 sites, unambiguous ACGT(-) in upper, lower or mixed case with the character variant "
         "run site by site, or with IUPAC ambiguity codes at tips; non-trivial = at least one step; distinct = distinct case text")
 TRUSTED = ["tree built through NewNode/NewEdge + verif hooks (exact neighbour order); dump through Neigh()/Edges()/Comments()",
            "alignment read by goalign's fasta parser from the text the worker writes (as cmd/asr.go does)"]
 ASSUMPTIONS = ["randomResolve=false only (the random resolution is not modelled)",
                "float64 counts are small integers, represented as nat in the model",
-               "nucleotide alphabet only for the sequence variant (characters of align.IupacCode)"]
+               "nucleotide alphabet only for the sequence variant; characters of align.IupacCode in either case; other "
+               "characters (X . ? *) get no state in asr.parsimonyUPPASS and are outside the property's quantifier: not generated",
+               "site-by-site comparison: the character variant is given the upper-cased nucleotide as the state"]
 LEVEL_TEXT = ("Theorems (Properties/C12.v, 30 statements, closed) for all well-formed trees of any degree and all tip-state "
               "assignments (single states or non-empty sets): the up-pass step count = the definitional minimum over all "
               "labellings (Hartigan); the minimum and the step count are invariant under Reroot; DOWNPASS reports at every "
@@ -107,6 +109,12 @@ def gen(rng, tier):
             chars = "ACGT" * 3 + IUPAC
         else:
             chars = rng.choice(["ACGT", "ACGT", "AC", "ACGT-"])
+        # lower-case and mixed-case alignments (the IUPAC table is looked up case-insensitively)
+        case_mode = rng.choice(["upper", "upper", "lower", "mixed"])
+        if case_mode == "lower":
+            chars = chars.lower()
+        elif case_mode == "mixed":
+            chars = chars + chars.lower()
         seqs = {n: [None] * L for n in tips}
         for j in range(L):
             sub = rng.sample(chars, min(len(chars), rng.choice([1, 2, 3, 4, 8])))
@@ -119,5 +127,5 @@ def gen(rng, tier):
         algo = rng.choice(["downpass", "deltran", "acctran"])
         case = {"kind": Sym("asr"), "tree": T(t), "aln": aln, "algo": Sym(algo), "sitewise": (not amb)}
         out.append({"sx": sx(case), "meta": {"kind": "asr", "algo": algo, "ntips": len(tips), "sites": L,
-                                              "ambiguous": amb, "rooted": len(t["slots"]) == 2}})
+                                              "ambiguous": amb, "case": case_mode, "rooted": len(t["slots"]) == 2}})
     return out
